@@ -19,6 +19,8 @@ SPECS = [
     {'conv': 'shoc_standard', 'ny': 3, 'nx': 4, 'node_holes': [[0, 0], [2, 2]]}, {'conv': 'shoc_standard', 'ny': 4, 'nx': 2},
     {'conv': 'ugrid', 'ny': 2, 'nx': 3, 'split': [[0, 1]], 'tables': ['edge_node'], 'start_index': 1},
     {'conv': 'ugrid', 'ny': 3, 'nx': 3, 'split': [[0, 0]], 'merge': [[1, 0]], 'face_coords': True},
+    # bounds whose grid dimensions are stored the other way round than latitude / longitude (non-square grid)
+    {'conv': 'cf2d', 'ny': 3, 'nx': 4, 'bounds': 'vars', 'bounds_transposed': True},
 ]
 
 
@@ -34,7 +36,11 @@ def test(inp):
     with warnings.catch_warnings():
         warnings.simplefilter('ignore')
         polys = ems.polygons
-    want = corners_oracle(spec)
+    if spec.get('bounds_transposed'):
+        # such bounds do not describe the coordinate's grid: the cells are the ones synthesised from the centres, in the order of the centres
+        want = corners_oracle({k: v for k, v in spec.items() if k not in ('bounds', 'bounds_transposed')})
+    else:
+        want = corners_oracle(spec)
     shapes = datasets.expected_grids(spec)
     ny_nx = shapes['face']
     size = int(numpy.prod(ny_nx))
